@@ -20,7 +20,8 @@ void slk_depth(int delta);            // > 0 while an operation of the test (top
 void slk_expect(char kind, long id);  // the next EPOLL_CTL_ADD of a descriptor belongs to this object
 void slk_connect_mode(int on);        // ::connect answers EINPROGRESS without touching the network
 void slk_script_clear(void);
-int  slk_script_add(const char* item);   // "<dt>[:<ent>=<bits>,…]"
+int  slk_script_add(const char* item);   // "<dt>[+][!][:<ent>=<bits>,…]"  (+: continues the previous item, !: -1/EINTR)
+void slk_touch(char kind, long id);      // the loop has done something with this object (a callback): its reported readiness is consumed
 void slk_push_send(int kind, long k);    // kind: 0 would block, 1 error, 2 sent k
 void slk_push_recv(int kind, long k);    // kind: 0 would block, 1 error, 2 end of stream, 3 got k
 void slk_push_accept(int ok);
